@@ -170,7 +170,8 @@ def rpc_matrix():
              'get_local_process_info': [(('zz:zz',)), (('A',))],
              'start_args': [(('A:a', 'x y', False)), (('A:*', '', False))],
              'end_sync': [(('n2',))],
-             'update_numprocs': [(('a', 0, False)), (('a', -1, False)), (('a', 'x', False))],
+             'update_numprocs': [(('a', 0, False)), (('a', -1, False)), (('a', 'x', False)), (('a', [1, 2], False)),
+                                 (('a', {'n': 1}, False)), (('a', '', False))],
              'change_log_level': [((None,)) if False else ((12345,))],
              'conciliate': [(('SENICIDE',))]}
     for (state, role), blob in sorted(blobs.items()):
@@ -181,6 +182,10 @@ def rpc_matrix():
             for args in calls:
                 w = W.restore(blob)
                 w.drain_observations()
+                if method == 'update_numprocs' and args[0] == 'a':
+                    # the program is known to the server options: the check of the numprocs parameter is reached
+                    # (only invalid values are tried: the Supervisor updater is not part of the world)
+                    w.sups[idx].server_options.program_configs = {'a': None}
                 res = w.user_rpc(idx, method, args)
                 obs = w.drain_observations()
                 n += 1
